@@ -534,7 +534,7 @@ func parentMain(m Monitor, prop, tier string, seed int64, par int, only string) 
 	for i := range shards {
 		shards[i].Prop, shards[i].Tier, shards[i].Seed = prop, tier, seed
 	}
-	work := filepath.Join(verifRoot(), ".work", prop+"-"+tier)
+	work := filepath.Join(verifRoot(), ".work", prop+"-"+tier+os.Getenv("VERIF_WORK_SUFFIX"))
 	os.RemoveAll(work)
 	os.MkdirAll(work, 0o755)
 
@@ -681,7 +681,7 @@ func parentMain(m Monitor, prop, tier string, seed int64, par int, only string) 
 			real = append(real, v)
 		}
 	}
-	rdir := filepath.Join(verifRoot(), "replays", prop)
+	rdir := filepath.Join(envOr("VERIF_REPLAY_DIR", filepath.Join(verifRoot(), "replays")), prop)
 	for i, v := range real {
 		os.MkdirAll(rdir, 0o755)
 		p := filepath.Join(rdir, fmt.Sprintf("%d-%d.json", seed, i))
@@ -721,8 +721,9 @@ func parentMain(m Monitor, prop, tier string, seed int64, par int, only string) 
 		ev["assumptions"] = as.Assumptions(prop)
 	}
 	eb, _ := json.MarshalIndent(ev, "", " ")
-	os.MkdirAll(filepath.Join(verifRoot(), "evidence"), 0o755)
-	if err := os.WriteFile(filepath.Join(verifRoot(), "evidence", prop+".json"), eb, 0o644); err != nil {
+	evdir := envOr("VERIF_EVIDENCE_DIR", filepath.Join(verifRoot(), "evidence"))
+	os.MkdirAll(evdir, 0o755)
+	if err := os.WriteFile(filepath.Join(evdir, prop+".json"), eb, 0o644); err != nil {
 		fmt.Fprintln(os.Stderr, err)
 		return 2
 	}
